@@ -217,10 +217,6 @@ def SpecX.step (s : SpecX) : XCmd → SpecX
 
 def SpecX.run (s : SpecX) (cs : List XCmd) : SpecX := cs.foldl SpecX.step s
 
-def XCmd.wellNamed : XCmd → Bool
-  | .op o => o.wellNamed
-  | _ => true
-
 /-- Every history over the extended operation set, boundaries anywhere, graph names that a `Graph` can
     carry: the wrapped store holds exactly the quads the snapshot specification says, and exactly the
     bindings the (non-transactional) specification says. -/
@@ -619,5 +615,127 @@ example :
   simp only [List.mem_cons, List.not_mem_nil, or_false] at hjo
   rcases hjo with rfl | rfl | rfl | rfl | rfl <;>
     simp_all [XOp.touches, Pat.matches, matchPos]
+
+/-! ### Operations arriving through `Graph` / `ConjunctiveGraph` / `Store.addN` -/
+
+/-- snapshot specification over graph-level commands: an operation's effect on the set of quads is the
+    fold of its wrapper calls' effects (`curStepX`); what that fold MEANS for each operation is
+    `graph_level_ops_meaning` below. -/
+def SpecX.gstep (s : SpecX) : GCmd → SpecX
+  | .op g => { s with cur := g.expand.foldl curStepX s.cur }
+  | .commit => { s with base := s.cur }
+  | .rollback => { s with cur := s.base }
+
+def SpecX.grun (s : SpecX) (cs : List GCmd) : SpecX := cs.foldl SpecX.gstep s
+
+/-- Every history of graph-level operations (batch adds / `+=` / parser adds, `Graph.set`, `-=`,
+    `remove_context`, a quad carrying a foreign Graph object, single store calls) with boundaries
+    anywhere: the wrapped store holds what the snapshot specification says. -/
+def Statement_graph_level_history_refines_spec : Prop :=
+  ∀ (m0 : Mem) (cs : List GCmd), m0.cur.Nodup → (∀ c ∈ cs, c.wellNamed = true) →
+    SetEq (XW.run ⟨m0, []⟩ (cs.flatMap GCmd.expand)).m.cur (SpecX.grun ⟨m0.cur, m0.cur, m0.b⟩ cs).cur
+
+/-- What each graph-level operation means on a set of quads `c`. -/
+def Statement_graph_level_ops_meaning : Prop :=
+  ∀ (c : List Quad) (x : Quad),
+    (∀ qs, x ∈ (GOp.addN qs).expand.foldl curStepX c ↔ x ∈ qs ∨ x ∈ c) ∧
+    (∀ q, x ∈ (GOp.set q).expand.foldl curStepX c ↔
+      x = q ∨ (x ∈ c ∧ ¬ (x.1 = q.1 ∧ x.2.1 = q.2.1 ∧ x.graph = q.graph))) ∧
+    (∀ qs, x ∈ (GOp.isub qs).expand.foldl curStepX c ↔ x ∈ c ∧ x ∉ qs) ∧
+    (∀ g, x ∈ (GOp.removeContext g).expand.foldl curStepX c ↔ x ∈ c ∧ x.graph ≠ g) ∧
+    (∀ q extra, x ∈ (GOp.addForeign q extra).expand.foldl curStepX c ↔
+      x = q ∨ (∃ t ∈ extra, x = mkQuad t q.graph) ∨ x ∈ c)
+
+theorem specx_run_ops (os : List XOp) : ∀ (sp : SpecX),
+    (sp.run (os.map .op)).cur = os.foldl curStepX sp.cur ∧ (sp.run (os.map .op)).base = sp.base := by
+  induction os with
+  | nil => intro sp; exact ⟨rfl, rfl⟩
+  | cons o os ih =>
+    intro sp
+    simp only [List.map_cons, SpecX.run, List.foldl_cons] at ih ⊢
+    obtain ⟨h1, h2⟩ := ih (sp.step (.op o))
+    refine ⟨?_, ?_⟩
+    · rw [h1]; cases o <;> rfl
+    · rw [h2]; cases o <;> rfl
+
+theorem graph_level_history_refines_spec : Statement_graph_level_history_refines_spec := by
+  intro m0 cs hnd hw
+  have hw' : ∀ x ∈ cs.flatMap GCmd.expand, x.wellNamed = true := by
+    intro x hx
+    obtain ⟨c, hc, hxc⟩ := List.mem_flatMap.mp hx
+    exact gcmd_expand_wellNamed c (hw c hc) x hxc
+  refine (code_history_refines_spec m0 _ hnd hw').1.trans ?_
+  have key : ∀ (cs : List GCmd) (sp sq : SpecX), sp.cur = sq.cur → sp.base = sq.base →
+      (sp.run (cs.flatMap GCmd.expand)).cur = (sq.grun cs).cur := by
+    intro cs
+    induction cs with
+    | nil => intro sp sq h _; exact h
+    | cons c cs ih =>
+      intro sp sq hc hb
+      simp only [List.flatMap_cons, SpecX.run, SpecX.grun, List.foldl_append, List.foldl_cons] at ih ⊢
+      apply ih
+      · cases c with
+        | op g =>
+          have := specx_run_ops g.expand sp
+          simp only [SpecX.run] at this
+          simp only [GCmd.expand, SpecX.gstep, this.1, hc]
+        | commit => simp [GCmd.expand, SpecX.step, SpecX.gstep, hc]
+        | rollback => simp [GCmd.expand, SpecX.step, SpecX.gstep, hb]
+      · cases c with
+        | op g =>
+          have := specx_run_ops g.expand sp
+          simp only [SpecX.run] at this
+          simp only [GCmd.expand, SpecX.gstep, this.2, hb]
+        | commit => simp [GCmd.expand, SpecX.step, SpecX.gstep, hc]
+        | rollback => simp [GCmd.expand, SpecX.step, SpecX.gstep, hb]
+  rw [key cs _ _ rfl rfl]
+  exact SetEq.refl _
+
+theorem graph_level_ops_meaning : Statement_graph_level_ops_meaning := by
+  intro c x
+  refine ⟨fun qs => mem_fold_adds qs c x, ?_, fun qs => mem_fold_removes qs c x, ?_, ?_⟩
+  · intro q
+    obtain ⟨a, b, d, g⟩ := q
+    obtain ⟨a', b', d', g'⟩ := x
+    simp only [GOp.expand, List.foldl_cons, List.foldl_nil, curStepX, mem_sinsert, List.mem_filter,
+      Pat.matches, matchPos, Quad.graph, Bool.and_true, Bool.not_eq_true', Bool.and_eq_false_iff, beq_eq_false_iff_ne,
+      ne_eq, Prod.mk.injEq]
+    constructor
+    · rintro (h | ⟨h1, h2⟩)
+      · exact Or.inl h
+      · refine Or.inr ⟨h1, ?_⟩
+        rintro ⟨e1, e2, e3⟩
+        rcases h2 with (h2 | h2) | h2
+        · exact h2 e1
+        · exact h2 e2
+        · exact h2 e3
+    · rintro (h | ⟨h1, h2⟩)
+      · exact Or.inl h
+      · refine Or.inr ⟨h1, ?_⟩
+        by_cases e1 : a' = a
+        · by_cases e2 : b' = b
+          · exact Or.inr (fun e3 => h2 ⟨e1, e2, e3⟩)
+          · exact Or.inl (Or.inr e2)
+        · exact Or.inl (Or.inl e1)
+  · intro g
+    obtain ⟨a', b', d', g'⟩ := x
+    simp [GOp.expand, curStepX, Pat.matches, matchPos, Quad.graph]
+  · intro q extra
+    simp only [GOp.expand, List.foldl_append, List.foldl_cons, List.foldl_nil, curStepX, mem_sinsert]
+    have h := mem_fold_adds (extra.map (fun t => mkQuad t q.graph)) c x
+    rw [List.map_map] at h
+    have e : (XOp.add ∘ fun t => mkQuad t q.graph) = fun t => XOp.add (mkQuad t q.graph) := rfl
+    rw [e] at h
+    rw [h]
+    simp only [List.mem_map]
+    constructor
+    · rintro (h1 | ⟨t, ht, rfl⟩ | h1)
+      · exact Or.inl h1
+      · exact Or.inr (Or.inl ⟨t, ht, rfl⟩)
+      · exact Or.inr (Or.inr h1)
+    · rintro (h1 | ⟨t, ht, rfl⟩ | h1)
+      · exact Or.inl h1
+      · exact Or.inr (Or.inl ⟨t, ht, rfl⟩)
+      · exact Or.inr (Or.inr h1)
 
 end RV.C18
